@@ -194,7 +194,7 @@ class Interp:
         if self.pos < len(self.decisions):
             d = self.decisions[self.pos]
             self.pos += 1
-            self.assume(cond if d else z3.Not(cond))
+            self._assume_decision(cond if d else z3.Not(cond))
             return d
         t = self.check(cond)
         f = self.check(z3.Not(cond))
@@ -220,8 +220,45 @@ class Interp:
             self.alternatives.append(self.decisions[: self.pos] + [False])
         self.decisions.append(d)
         self.pos += 1
-        self.assume(cond if d else z3.Not(cond))
+        self._assume_decision(cond if d else z3.Not(cond))
         return d
+
+    def _assume_decision(self, lit):
+        """a branch decision: assumed like everything else, and remembered as such (vacuity guard)"""
+        n = len(self.pc)
+        self.assume(lit)
+        if not hasattr(self, "decision_idx"):
+            self.decision_idx = set()
+        self.decision_idx.update(range(n, len(self.pc)))
+
+    def assume_all_checked(self, terms, what: str):
+        """Assume facts that come from a contract (callee postconditions, loop invariants, ghost definitions) and make
+        sure they do not contradict what is known at this point: if the path was satisfiable before and is not
+        afterwards, everything generated from here on would be discharged for nothing - reported as an error."""
+        before = self.check(z3.BoolVal(True))
+        for t in terms:
+            self.assume(t)
+        if before != "unsat" and self.check(z3.BoolVal(True)) == "unsat" and self.confirm_unsat(z3.BoolVal(True)):
+            raise Unsupported(f"vacuous: {what} contradicts what is known at that point (the path was satisfiable before these facts were assumed)")
+
+    def assumptions_contradictory(self) -> bool:
+        """Vacuity guard: the quantifier-free facts assumed on this path *other than the branch decisions* are
+        unsatisfiable (a path that is infeasible because of its decisions is harmless; one whose callee
+        postconditions / invariants / ghost definitions contradict each other discharges everything for nothing)."""
+        dec = getattr(self, "decision_idx", set())
+        s = z3.Solver()
+        s.set("timeout", 3000)
+        for i, f in enumerate(self.pc):
+            if i not in dec and not _has_quant(f):
+                s.add(f)
+        if str(s.check()) != "unsat":
+            return False
+        from .solve import _cli_check
+        try:
+            res, _ms = _cli_check(s.to_smt2(), "z3", 3)
+        except Exception:
+            return False
+        return res == "unsat"
 
     def confirm_unsat(self, extra) -> bool:
         """pc /\ extra is unsatisfiable according to /usr/bin/z3 4.8.12 (short budget)."""
